@@ -654,6 +654,36 @@ def c14(ctx, rep):
                                "logging call passes extra=%s; %s" % (ast.unparse(k.value)[:60], ("keys %s are attributes of every LogRecord: Logger.makeRecord raises KeyError when the record is created" % bad) if bad else "keys not readable as a literal" if keys is None else "keys are free"),
                                W(f, n), key="C14.K8-logging-extra|%s" % f.name)
     rep.stat("logging_calls_scanned_for_extra", n_log)
+    # K9 a name bound only inside a loop and read after it: UnboundLocalError when the loop runs zero times (an empty file has no lines)
+    n_k9 = 0
+    for f in fns + [p.find_function("anonymize_files"), p.find_function("FileAnonymizer.anonymize_file"), p.find_function("FileAnonymizer.anonymize_io")]:
+        fnode = f.gen_orig or f.node
+        params = {a.arg for a in fnode.args.posonlyargs + fnode.args.args + fnode.args.kwonlyargs} | ({fnode.args.vararg.arg} if fnode.args.vararg else set()) | ({fnode.args.kwarg.arg} if fnode.args.kwarg else set())
+
+        def own_nodes(root):
+            stack = list(ast.iter_child_nodes(root))
+            while stack:
+                n_ = stack.pop()
+                yield n_
+                if not isinstance(n_, (ast.FunctionDef, ast.AsyncFunctionDef, ast.Lambda, ast.ClassDef)):
+                    stack.extend(ast.iter_child_nodes(n_))
+        allnodes = list(own_nodes(fnode))
+        for L in [n_ for n_ in allnodes if isinstance(n_, (ast.For, ast.While))]:
+            if isinstance(L, ast.For) and isinstance(L.iter, (ast.Tuple, ast.List, ast.Constant)) and (getattr(L.iter, "elts", None) or getattr(L.iter, "value", None)):
+                continue  # a non-empty literal: at least one round
+            n_k9 += 1
+            inside = set(id(x) for x in ast.walk(L))
+            bound_in = {x.id for x in ast.walk(L) if isinstance(x, ast.Name) and isinstance(x.ctx, ast.Store) and not any(id(x) in set(id(y) for y in ast.walk(s_)) for s_ in L.orelse)}
+            end = getattr(L, "end_lineno", L.lineno)
+            for nm in sorted(bound_in - params):
+                before = any(isinstance(x, ast.Name) and x.id == nm and isinstance(x.ctx, ast.Store) and id(x) not in inside and x.lineno < L.lineno for x in allnodes)
+                in_else = any(isinstance(x, ast.Name) and x.id == nm and isinstance(x.ctx, ast.Store) for s_ in L.orelse for x in ast.walk(s_))
+                after = [x for x in allnodes if isinstance(x, ast.Name) and x.id == nm and isinstance(x.ctx, ast.Load) and id(x) not in inside and x.lineno > end]
+                rebound_after = [x for x in allnodes if isinstance(x, ast.Name) and x.id == nm and isinstance(x.ctx, ast.Store) and id(x) not in inside and x.lineno > end]
+                if after and not before and not in_else and not (rebound_after and min(y.lineno for y in rebound_after) <= min(y.lineno for y in after)):
+                    rep.fail("C14.K9-bound-only-in-loop", "%s:%s" % (f.name, nm), "%s is bound only inside the loop at line %d and read at line %d: when the loop body never runs (an empty file, an empty list) the read raises UnboundLocalError" % (nm, L.lineno, after[0].lineno),
+                             W(f, after[0]), key="C14.K9-bound-only-in-loop|%s:%s" % (f.name, nm))
+    rep.stat("loops_scanned_for_names_bound_only_inside", n_k9)
     for f in fns:
         rep.analysed(f)
     rep.ob("C14.perline-floor", "per-line closure", len(fns) >= 28, "functions reachable from the line loop: %d (floor 28)" % len(fns), "", nontrivial=False)
@@ -789,12 +819,12 @@ def c14(ctx, rep):
     sub = Report("C18", quiet=True)
     c18(ctx, sub, with_k3=False)
     for o in sub.obligations:
-        if o["clause"] in ("C18.valid-alphabet", "C18.validated-before-tables", "C18.refusal", "C18.raises-valueerror-only", "C18.extra-total", "C18.alpha-num-inverse", "C18.gap-decode-guard", "C18.decode-prelude", "C18.decode-chain", "C18.decode-result"):
+        if o["clause"] in ("C18.valid-alphabet", "C18.validated-before-tables", "C18.validated-before-indexing", "C18.refusal", "C18.raises-valueerror-only", "C18.extra-total", "C18.alpha-num-inverse", "C18.gap-decode-guard", "C18.decode-prelude", "C18.decode-chain", "C18.decode-result"):
             rep.ob("C14.K3." + o["clause"].split(".", 1)[1], o["construct"], o["ok"], o["detail"], o["where"], o.get("witness"), key="C14.K3.%s|%s" % (o["clause"].split(".", 1)[1], o["construct"]))
     # the AS map is read with every number the pattern can match (same list), parent directories exist before the output is opened
     from .checks_pipe import import_clauses, c16 as _c16
     from . import checks_rx as _rx
-    import_clauses(ctx, rep, "C14", "C11", _rx.c11, ("C11.map-built", "C11.map-writers", "C11.map-immutable", "C11.map-lookup", "C11.interval"))  # the map's values are strings (re.sub rejects anything else)
+    import_clauses(ctx, rep, "C14", "C11", _rx.c11, ("C11.map-built", "C11.map-writers", "C11.map-immutable", "C11.map-lookup", "C11.interval", "C11.pattern-"))  # the map's values are strings (re.sub rejects anything else)
     import_clauses(ctx, rep, "C14", "C06", _rx.c06, ("C06.ipv6-parse-call", "C06.ipv4-drop-zeros-call"))  # the matched text is parsed as matched: what the pattern accepts the parser accepts
     from . import checks_ip as _ip
     from .ipmodel import IpModel as _IpModel
@@ -1352,6 +1382,20 @@ def _codec_structure(ctx, rep, NUM_ALPHA, EXTRA, ENCODING, fixedc):
                 for x in subterms(t):
                     if M.is_call(x) and x[1][0] == "attr" and x[1][1] == ("global", JS, "re") and x[1][2] in ("match", "fullmatch") and x[2] == (g("VALID"), crypt) and not x[3]:
                         valid_test = x
+    # nothing indexes into the string before it has been validated (a debug line that reads crypt[3] fails with IndexError on "$9$")
+    for path in A.paths(f_dec).paths:
+        if not path.feasible():
+            continue
+        lines = [getattr(n_, "lineno", None) for t, pol, n_ in path.conds if n_ is not None and any(x == valid_test for x in subterms(t))]
+        first_test = min([l_ for l_ in lines if l_ is not None], default=None)
+        for e, ls in walk_effects(path.effects):
+            if e.kind not in ("subscript", "call") or not isinstance(e.a, tuple):
+                continue
+            early = [x for x in subterms(e.a) if x[0] == "sub" and strip_mut(x[1]) == crypt and not (isinstance(x[2], tuple) and x[2] and x[2][0] == "slice")]
+            ln_ = getattr(e.node, "lineno", None)
+            if early and (first_test is None or (ln_ is not None and ln_ < first_test)):
+                rep.fail("C18.validated-before-indexing", "juniper_decrypt:%s" % show(early[0])[:40], "%s is read before the string was validated: a short string fails with IndexError, not with the ValueError the property demands" % show(early[0]),
+                         W(f_dec, e.node), key="C18.validated-before-indexing|juniper_decrypt")
     n_ret = 0
     refuse_ok = False
     for path in A.paths(f_dec).paths:
